@@ -738,6 +738,8 @@ def vec_getitem(M, interp, v, key, node):
     n = len(v)
     if isinstance(key, tuple) and len(key) == 1:
         key = key[0]
+    if key is Ellipsis or (isinstance(key, tuple) and len(key) == 2 and Ellipsis in key and all(k is Ellipsis or (isinstance(k, slice) and k == slice(None)) for k in key)):
+        key = slice(None)      # a[...] / a[..., :] on a 1-D array: the whole array (a view)
     if isinstance(key, slice):
         pos = slice_positions(M, key, n, node)
         out = v.view([v.idx[p] for p in pos])
@@ -904,6 +906,8 @@ def vec_store(M, interp, t, key, v, node):
 
     if isinstance(key, tuple) and len(key) == 1:
         key = key[0]
+    if key is Ellipsis:
+        key = slice(None)
     if isinstance(key, slice):
         pos = slice_positions(M, key, n, node)
         els = value_elements(M, interp, v, len(pos), node, t)
